@@ -162,3 +162,29 @@ pub struct W8SessionSchemeIsPrivate;
 /// fn touch(r: &anytls_rs::session::StreamReader) -> usize { r.buffer_len() }
 /// ```
 pub struct W9ReaderStateIsPrivate;
+
+/// W10 — the command codes are the protocol's, checked by the compiler's constant evaluator (E0080 on the failing twin):
+/// `Command::X as u8` for all eleven commands (supports C03 R03.3 "codes are the protocol's").
+/// ```
+/// use anytls_rs::protocol::Command as C;
+/// const _: () = assert!(C::Waste as u8 == 0 && C::Syn as u8 == 1 && C::Push as u8 == 2 && C::Fin as u8 == 3 && C::Settings as u8 == 4
+///     && C::Alert as u8 == 5 && C::UpdatePaddingScheme as u8 == 6 && C::SynAck as u8 == 7 && C::HeartRequest as u8 == 8
+///     && C::HeartResponse as u8 == 9 && C::ServerSettings as u8 == 10);
+/// ```
+/// twin (must fail in constant evaluation):
+/// ```compile_fail,E0080
+/// use anytls_rs::protocol::Command as C;
+/// const _: () = assert!(C::ServerSettings as u8 == 16);
+/// ```
+pub struct W10CommandCodesAreTheProtocols;
+
+/// W11 — the liveness state of a session is private (E0616): the last-response instant has no writer outside
+/// `session.rs`, which is what makes the who-may-write scan of C14 R14.1 exhaustive.
+/// ```compile_fail,E0616
+/// fn touch(s: &anytls_rs::session::Session) { let _ = &s.heartbeat; }
+/// ```
+/// twin:
+/// ```
+/// fn touch(s: &anytls_rs::session::Session) -> bool { s.is_closed() }
+/// ```
+pub struct W11LivenessStateIsPrivate;
